@@ -390,7 +390,7 @@ def r05_3(run):
     ver, rep, _, typ = names
     src_ok = src(c01_resolve(defs, unp.value.args[1])) in ('self._data[:4]',)
     run.ob('R05.3', pr, unp, 'header = first four buffered bytes', src_ok, slot='header-source', message='header taken from %s' % src(unp.value.args[1]))
-    disp_vars = names_defined_by(pr, lambda v: isinstance(v, ast.Subscript) and isinstance(v.value, ast.Name))
+    disp_vars = names_defined_by(pr, lambda v: isinstance(v, ast.Subscript) and (isinstance(v.value, ast.Name) or (dotted(v.value) or '').startswith('self.')))
     disp = [n for n in g.real_nodes() if any(isinstance(a, ast.Call) and (dotted(a.func) in disp_vars or (dotted(a.func) or '').startswith('self._parse_'))
                                              for a in node_asts(n))]
     # the dispatch call: method() where method = reply_dispatcher[typ]
@@ -498,6 +498,12 @@ def r05_5(run):
     for m, c in self_calls(pr):
         if m.startswith('_parse_') and m != '_parse_request_reply':
             parsers.add(m)
+    # ... or a class-level table of plain functions, called as table[typ](self)
+    for an, av in machine_raw(run).attrs.items():
+        if isinstance(av, ast.Dict) and any(isinstance(x, ast.Attribute) and dotted(x) == 'self.' + an for x in walk_unit(pr)):
+            for v in av.values:
+                if isinstance(v, ast.Name) and v.id.startswith('_parse_'):
+                    parsers.add(v.id)
     run.floor('R05.5', 'address parsers dispatched from _parse_request_reply', len(parsers), 3)
 
     def is_connect_atom(tst):
@@ -598,11 +604,27 @@ def r05_8(run):
                main is not None and main[1] == total, slot='need:%s' % pname,
                message='%s waits for %s bytes; the reply is complete with %s: one byte more is awaited (the attempt hangs until the peer sends application data) '
                        'or fewer are accepted (garbage parsed)' % (pname, main[1] if main else None, total))
+        # a local that holds the front of the buffer (msg = self._data[:N], possibly through another local) is sliced like the buffer
+        ldefs = local_defs(u)
+        front = set()
+        grew = True
+        while grew:
+            grew = False
+            for nm, ds in ldefs.items():
+                if nm in front or len(ds) != 1 or ds[0][0] != 'expr':
+                    continue
+                v = ds[0][1]
+                if (isinstance(v, ast.Subscript) and dotted(v.value) == 'self._data' and isinstance(v.slice, ast.Slice) and v.slice.upper is not None and
+                        (v.slice.lower is None or const(v.slice.lower) == 0)) or (isinstance(v, ast.Name) and v.id in front):
+                    front.add(nm)
+                    grew = True
         for n in walk_unit(u):
-            if isinstance(n, ast.Subscript) and dotted(n.value) == 'self._data' and isinstance(n.slice, ast.Slice):
+            if isinstance(n, ast.Subscript) and (dotted(n.value) == 'self._data' or dotted(n.value) in front) and isinstance(n.slice, ast.Slice):
                 lo, hi = _lin(n.slice.lower, sym) if n.slice.lower is not None else None, _lin(n.slice.upper, sym) if n.slice.upper is not None else None
                 par = [p_ for p_ in walk_unit(u) if isinstance(p_, ast.Assign) and any(x is n for x in ast.walk(p_.value))]
                 tgt = assigned_targets(par[0])[0] if par and assigned_targets(par[0]) else None
+                if tgt in front:
+                    continue        # the definition of the front copy itself
                 role = None
                 if tgt == 'self._data':
                     role = 'consume'
